@@ -319,11 +319,10 @@ def make_eval_harness(alg_name, term_name, have_offdiag, canary=False):
             eng.oblige(f"delete:not-blacklisted:{nm}", z3.BoolVal(nm not in blacklist),
                        detail="terms of inputs, outputs and product factors are never deleted")
             eng.oblige(f"delete:at-requested-order:{nm}", z3.BoolVal(idx.tail is not None and idx.tail.arr.get_id() == n.arr.get_id()))
-            dstart = next((t.start for t in terms if t.name == nm), "unknown")
-            has_start = {None: z3.BoolVal(False), "identity_data": zi(idx.items[0]) == zi(idx.items[1])}.get(dstart, z3.BoolVal(True))
-            eng.oblige(f"delete:never-start-data:{nm}", z3.Not(z3.And(nz, has_start)),
-                       detail="a deleted element is never a start value (start values cannot be recomputed): deletions happen at non-zero order, or the deleted series "
-                              "has no start value at that index")
+            # a request that addresses a start value (possible only when this evaluator runs at zeroth order) is ignored by del_ itself:
+            # callee contract, verified on series_computation's own del_ (unit_wiring: wiring:del_-never-removes-a-start-value)
+            eng_ = eng
+            eng_.used_models.add("contract:del_ removes the addressed element from both dictionaries unless it is a start value (verified in unit_wiring)")
             same = z3.And(z3.BoolVal(nm == term_name), zi(idx.items[0]) == i, zi(idx.items[1]) == j)
             eng.oblige(f"delete:not-the-element-in-flight:{nm}", z3.Not(same))
             eng.oblige(f"delete:block-or-transpose:{nm}", z3.Or(z3.And(zi(idx.items[0]) == i, zi(idx.items[1]) == j),
@@ -394,6 +393,28 @@ class Created(SSeries):
         return None
 
 
+class FrozenKeys(Model):
+    """frozenset of concrete dictionary keys (tuples of ints)"""
+
+    def __init__(self, keys):
+        self.keys = frozenset(keys)
+
+    def m_contains(self, eng, item):
+        return eng.hashable(item) in self.keys
+
+    def m_truth(self, eng):
+        return bool(self.keys)
+
+
+def _frozenset(eng, x=()):
+    if isinstance(x, dict):
+        return FrozenKeys(x.keys())
+    s = eng.as_seq(x)
+    if s.tail is not None:
+        raise Unsupported("frozenset of a symbolic-length sequence")
+    return FrozenKeys(eng.hashable(k) for k in s.items)
+
+
 def make_wiring_harness(alg_name, nblocks, ninf, with_scope):
     node = frontend.find("algorithm_parsing", "series_computation")
 
@@ -448,7 +469,7 @@ def make_wiring_harness(alg_name, nblocks, ninf, with_scope):
         g = {"BlockSeries": Builtin("BlockSeries", ctor), "cauchy_dot_product": Builtin("cauchy_dot_product", cauchy),
              "_parse_algorithm": Builtin("_parse_algorithm", parse), "compile": Builtin("compile", compile_), "exec": Builtin("exec", exec_),
              "aslinearoperator": Builtin("aslinearoperator", aslo), "_safe_divide": Builtin("_safe_divide", safe_divide_contract),
-             "_zero_sum": Builtin("_zero_sum", zero_sum_contract),
+             "_zero_sum": Builtin("_zero_sum", zero_sum_contract), "frozenset": Builtin("frozenset", _frozenset),
              "np": __import__("pyvc.core", fromlist=["Namespace"]).Namespace("np", {"zeros": Builtin("np.zeros", lambda e, shape, dtype=None: UseLO())}),
              }
         eng.globals.update(g)
@@ -560,6 +581,17 @@ def make_wiring_harness(alg_name, nblocks, ninf, with_scope):
         key = STup([0, 0] + [2] * ninf)
         eng.call(d, [nm0, key], {})
         eng.oblige("wiring:del_-pops-both-dicts", z3.BoolVal(series[nm0].popped[-1:] == [key] and lo[nm0].popped[-1:] == [key]))
+        # ... but never a start value (start values cannot be recomputed): a deletion request for a key of the start data is ignored,
+        # for a series without start data the zeroth order is deleted like any other element
+        for t in terms:
+            for blk in ((0, 0), (0, nblocks - 1)):
+                k0 = STup(list(blk) + [0] * ninf)
+                n_before = (len(series[t.name].popped), len(lo[t.name].popped))
+                eng.call(d, [t.name, k0], {})
+                removed = (len(series[t.name].popped), len(lo[t.name].popped)) != n_before
+                has_start = t.start is not None and (t.start != "identity_data" or blk[0] == blk[1])
+                eng.oblige(f"wiring:del_-never-removes-a-start-value:{t.name}:{blk}", z3.BoolVal(removed == (not has_start)),
+                           detail=f"start={t.start!r}: deletion request at zeroth order {'must be ignored' if has_start else 'is carried out'}")
 
     return harness
 
